@@ -495,6 +495,9 @@ func C13(c *core.Ctx) {
 				if im.Fee && rng.Intn(3) == 0 {
 					r.Fee = 1 + rng.Intn(300)
 				}
+				if im.Bals && len(im.Kinds) == 0 && rng.Intn(5) == 0 && bal[cur] != 0 && bal[cur] != r.Fee {
+					r.Amt = r.Fee - bal[cur] // the account is emptied: the running balance after this row is exactly zero
+				}
 				if len(im.Kinds) > 0 {
 					r.Kind = im.Kinds[rng.Intn(len(im.Kinds))]
 					other := []string{"CHF", "EUR", "USD"}[rng.Intn(3)]
